@@ -148,6 +148,11 @@ func c14Alphabet(ours string, others []string, reduced bool) []c14Op {
 type c14Case struct {
 	Ours string  `json:"ours"`
 	Ops  []c14Op `json:"ops"`
+	// RefuseCmd / RefuseDB: the target answers this lookup command ("exists", "hgetall") in that
+	// database with -LOADING (a target restarted together with the tool): the loader cannot know the
+	// newest checkpoint, so it must report an error, never go on with what it saw elsewhere
+	RefuseCmd string `json:"refuse_cmd,omitempty"`
+	RefuseDB  int    `json:"refuse_db,omitempty"`
 }
 
 // c14Eval builds the state in a model Redis, runs the real LoadCheckpoint and judges it.
@@ -156,7 +161,16 @@ func c14Eval(c c14Case) string {
 	for _, op := range c.Ops {
 		op.apply(st)
 	}
-	srv := mredis.New(mredis.Options{})
+	opts := mredis.Options{}
+	if c.RefuseCmd != "" {
+		opts.ReplyHook = func(cmd mredis.Cmd) []byte {
+			if cmd.Name() == c.RefuseCmd && cmd.DB == c.RefuseDB {
+				return []byte("-LOADING Redis is loading the dataset in memory\r\n")
+			}
+			return nil
+		}
+	}
+	srv := mredis.New(opts)
 	for d, v := range st {
 		if v.Data {
 			srv.Put(d, "data", &mredis.Entry{Kind: "string", Str: []byte("x")})
@@ -210,6 +224,19 @@ func c14Eval(c c14Case) string {
 	}
 	if aborted {
 		return bad("abort", "LoadCheckpoint aborts the tool")
+	}
+	if c.RefuseCmd != "" {
+		v := st[c.RefuseDB]
+		asked := v != nil && (v.Data || v.NonHash || v.Fields != nil)
+		if c.RefuseCmd == "hgetall" {
+			asked = v != nil && (v.NonHash || v.Fields != nil)
+		}
+		if asked && err == nil {
+			return bad("refused-lookup-ignored", fmt.Sprintf("the target refused %s in db %d with -LOADING and LoadCheckpoint reports success", strings.ToUpper(c.RefuseCmd), c.RefuseDB))
+		}
+		if asked {
+			return "refused"
+		}
 	}
 	// reference
 	type cand struct {
@@ -382,6 +409,15 @@ func TestVerif_C14(t *testing.T) {
 			}
 			o := c14Eval(c14Case{Ours: cf.ours, Ops: n.path})
 			evals++
+			if len(n.path) <= 2 {
+				// every state reachable with at most two writes, with one lookup refused in one database
+				for db := range n.st {
+					for _, cmd := range []string{"exists", "hgetall"} {
+						ev.Outcome(c14Eval(c14Case{Ours: cf.ours, Ops: n.path, RefuseCmd: cmd, RefuseDB: db}))
+						evals++
+					}
+				}
+			}
 			ev.State(h)
 			ev.Outcome(o)
 			if o != "none" {
